@@ -313,7 +313,7 @@ class Ctx:
                 raise Violation("undefined behaviour: %s %s" % ub[0], case=case, script=lines)
         return outs
 
-    def hypothesis(self, check, strategy, max_examples, name=""):
+    def hypothesis(self, check, strategy, max_examples, name="", shrink=True):
         """Drive check(case) with Hypothesis; returns a Violation (minimal) or None."""
         import hypothesis
         from hypothesis import HealthCheck, given, settings, Phase
@@ -324,7 +324,7 @@ class Ctx:
         @settings(max_examples=max_examples, database=None, deadline=None, derandomize=False,
                   report_multiple_bugs=False, print_blob=False,
                   suppress_health_check=[HealthCheck.too_slow, HealthCheck.data_too_large, HealthCheck.large_base_example],
-                  phases=[Phase.explicit, Phase.generate, Phase.shrink])
+                  phases=[Phase.explicit, Phase.generate, Phase.shrink] if shrink else [Phase.explicit, Phase.generate])
         @given(strategy)
         def test(case):
             try:
